@@ -4,11 +4,15 @@
 package main
 
 import (
+	"bytes"
 	"encoding/json"
 	"flag"
 	"fmt"
+	"io"
 	"os"
+	"os/exec"
 	"path/filepath"
+	"regexp"
 	"sort"
 	"strings"
 	"sync"
@@ -132,6 +136,13 @@ func main() {
 		os.Exit(2)
 	}
 	os.MkdirAll(*out, 0o755)
+	if os.Getenv("VERIF_WORKER") == "" {
+		// The scenarios run in a worker process: code of the repository runs inside it, and a panic
+		// on a goroutine of that code takes the whole process down. When that happens the input is
+		// known (property, seed, tier) and the crash itself is reported as the failing input.
+		superviseWorker(*prop, *seed, *tier, *out)
+		return
+	}
 	ctx := &Ctx{Seed: *seed, Tier: *tier, Out: *out, Rng: NewRng(uint64(*seed)), seen: map[string]bool{}, ReplayF: *replay,
 		Stats: &Stats{Property: *prop, Seed: *seed, Tier: *tier, Distribution: map[string]int{}, Extra: map[string]interface{}{}}}
 	sc(ctx)
@@ -150,4 +161,100 @@ func runChild(name string, args []string) {
 		os.Exit(2)
 	}
 	f(args)
+}
+
+var implFrameRe = regexp.MustCompile(`^github\.com/Jigsaw-Code/outline-ss-server/(service|net|prometheus|ipinfo|cmd/outline-ss-server|internal/[a-z]+)[./(]`)
+
+// superviseWorker re-executes this binary as the worker. If the worker dies of a Go panic or fatal
+// error whose innermost non-runtime frame is code of the repository, a stats file with that crash
+// as a monitor finding is written (so that the check reports it with the input that caused it);
+// any other failure is passed on unchanged.
+func superviseWorker(prop string, seed int64, tier, out string) {
+	exe, _ := os.Executable()
+	cmd := exec.Command(exe, os.Args[1:]...)
+	cmd.Env = append(os.Environ(), "VERIF_WORKER=1")
+	var errb bytes.Buffer
+	cmd.Stdout = os.Stdout
+	cmd.Stderr = io.MultiWriter(os.Stderr, &tailWriter{buf: &errb, max: 1 << 20})
+	err := cmd.Run()
+	if err == nil {
+		return
+	}
+	code := 1
+	if ee, ok := err.(*exec.ExitError); ok && ee.ExitCode() > 0 {
+		code = ee.ExitCode()
+	}
+	trace := errb.String()
+	i := strings.Index(trace, "panic: ")
+	if j := strings.Index(trace, "fatal error: "); j >= 0 && (i < 0 || j < i) {
+		i = j
+	}
+	if i < 0 {
+		os.Exit(code)
+	}
+	trace = trace[i:]
+	lines := strings.Split(trace, "\n")
+	impl, first := "", lines[0]
+	started := false
+	for _, ln := range lines {
+		if strings.HasPrefix(ln, "goroutine ") {
+			if started {
+				break // only the crashing goroutine (the first one printed)
+			}
+			started = true
+			continue
+		}
+		if !started || strings.HasPrefix(ln, "\t") || ln == "" {
+			continue
+		}
+		if strings.HasPrefix(ln, "runtime.") || strings.HasPrefix(ln, "panic(") || strings.HasPrefix(ln, "sync.") || strings.HasPrefix(ln, "internal/") {
+			continue
+		}
+		if implFrameRe.MatchString(ln) {
+			impl = ln
+		}
+		break
+	}
+	if impl == "" {
+		os.Exit(code) // the harness' own failure
+	}
+	if len(lines) > 40 {
+		lines = lines[:40]
+	}
+	fn := impl
+	if k := strings.Index(fn, "("); k > 0 {
+		fn = fn[:k]
+	}
+	fn = strings.TrimPrefix(fn, "github.com/Jigsaw-Code/outline-ss-server/")
+	st := &Stats{Property: prop, Seed: seed, Tier: tier, Distribution: map[string]int{"worker-crashed": 1}, Extra: map[string]interface{}{},
+		Rule: "the scenario did not complete: the code under test crashed the process"}
+	st.Monitor = append(st.Monitor, MonitorFinding{prop + "/implementation-crash:" + fn,
+		"the server code crashed the process while the scenario ran (" + first + ")",
+		map[string]interface{}{"property": prop, "seed": seed, "tier": tier, "replay": "harness -prop " + prop + fmt.Sprintf(" -seed %d -tier %s", seed, tier), "trace": lines}})
+	b, _ := json.MarshalIndent(st, "", " ")
+	os.WriteFile(filepath.Join(out, "stats.json"), b, 0o644)
+}
+
+type tailWriter struct {
+	buf *bytes.Buffer
+	max int
+}
+
+// keeps the stderr of the worker from its first panic / fatal error line on, up to max bytes
+func (w *tailWriter) Write(p []byte) (int, error) {
+	if w.buf.Len() == 0 {
+		i := bytes.Index(p, []byte("panic: "))
+		if j := bytes.Index(p, []byte("fatal error: ")); j >= 0 && (i < 0 || j < i) {
+			i = j
+		}
+		if i < 0 {
+			return len(p), nil
+		}
+		w.buf.Write(p[i:])
+		return len(p), nil
+	}
+	if w.buf.Len() < w.max {
+		w.buf.Write(p)
+	}
+	return len(p), nil
 }
